@@ -1,6 +1,7 @@
 """C17 — callsign codec: correspondence (C++ encode/decode_callsign vs extracted ImplCallsign) and the property oracle on
 the real code (round trip, value = specification's base-40 value, injectivity, broadcast, NUL termination for any address)."""
 import json
+import re
 from vlib import COQ, VERIF
 
 PROPERTY = "C17"
@@ -11,8 +12,9 @@ LEVEL = "proof"
 RULE = ("round trip: every callsign of length 1..3 over the 39-character alphabet (60 879; thorough adds all 2 313 441 of length 4), "
         "random callsigns of length 5..9; decode: 40^k-1, 40^k, 40^k+1 for k=0..9, 0, 2^48-2, 2^48-1, random addresses stratified by "
         "number of base-40 digits, by zero digits (printed 'x') and in the reserved range >= 40^9; encode with strict on/off on valid, "
-        "lower-case, space, high-bit and ten-character inputs and every single byte value.  A case is non-trivial unless it is the "
-        "empty callsign / address 0; distinct by content.")
+        "lower-case, space, high-bit and ten-character inputs and every single byte value; call site: the LSF built by m17-mod's "
+        "send_lsf for every (source length 1..9) x (destination length 0..9) pair carries the specification's addresses.  "
+        "A case is non-trivial unless it is the empty callsign / address 0; distinct by content.")
 ASSUMPTIONS = ["model = hand-written ImplCallsign.v; tie = differential run on the cases of this run + regenerated constants "
                "(table, ranges, radix, sizes, broadcast constants, loop bound)",
                "little-endian host (the C++ reinterprets the uint64 as bytes; the model is the little-endian reading)",
@@ -136,6 +138,56 @@ def check_decoded(ctx, what, case, h, extra=None):
     return True
 
 
+def site_probe(ctx):
+    """The encode call site of apps/m17-mod.cpp (send_lsf): the address fields of the LSF it builds are the codec's addresses of
+    exactly the strings given, for every combination of source and destination length (the scratch buffer is shared)."""
+    model = getattr(ctx, "model", None)
+    exe = ctx.build_cpp("c13_harness", "c13.cpp", extra=[f'-DM17_MOD_SOURCE="{ctx.repo}/apps/m17-mod.cpp"'],
+                        libs=["-lcodec2", "-lboost_program_options"])
+    if not exe or not model:
+        return
+    r = ctx.rng.fork("c17-sites")
+    pairs = []
+    for ls in range(1, 10):
+        for ld in range(0, 10):
+            for _ in range(3 if ctx.tier == "thorough" else 1):
+                src = "".join(r.choice(ALPHABET) for _ in range(ls))
+                dst = "".join(r.choice(ALPHABET) for _ in range(ld))
+                pairs.append((src, dst))
+    cmds = [f"lsf {r.below(16)} {hx(sr)} {hx(ds) if ds else '-'}" for sr, ds in pairs]
+    rc, out = ctx.run_exe(exe, input_text="\n".join(cmds) + "\n", timeout=600)
+    got = out.strip("\n").split("\n")
+    if rc != 0 or len(got) != len(cmds):
+        ctx.tie_broken("c17-site-harness", f"c13 harness exited {rc} / printed {len(got)} lines for {len(cmds)} commands: {out[-200:]}")
+        return
+    q = []
+    for sr, ds in pairs:
+        q.append("rt " + hx(sr))
+        q.append("rt " + (hx(ds) if ds else "-"))
+    rc, mo = ctx.run_exe(model, ["spec"], input_text="\n".join(q) + "\n", timeout=600)
+    ml = mo.strip("\n").split("\n")
+    if rc != 0 or len(ml) != len(q):
+        ctx.tie_broken("c17-site-model", f"model driver exited {rc} / {len(ml)} lines")
+        return
+    for i, ((sr, ds), line) in enumerate(zip(pairs, got)):
+        ctx.case(("site", sr, ds))
+        m = re.search(r"lsf=([0-9a-f]{60})", line)
+        if not m:
+            ctx.tie_broken("c17-site-harness", f"unparsable: {line[:100]}")
+            return
+        lsf = m.group(1)
+        want_src = ml[2 * i].split()[0]
+        want_dst = ml[2 * i + 1].split()[0] if ds else "ffffffffffff"
+        if lsf[12:24] != want_src or lsf[0:12] != want_dst:
+            ctx.violation("callsign-site-m17-mod", "the link setup frame built by m17-mod's send_lsf does not carry the addresses of the "
+                          "callsigns it was given", {"source": sr, "destination": ds or "(none: broadcast)", "lsf": lsf,
+                                                     "dst_field": lsf[0:12], "dst_expected": want_dst,
+                                                     "src_field": lsf[12:24], "src_expected": want_src,
+                                                     "harness_command": cmds[i]})
+            return
+    ctx.coverage["m17_mod_send_lsf_length_pairs"] = len(pairs)
+
+
 def run(ctx):
     exe = ctx.build_cpp("c17_harness", "c17.cpp")
     if ctx.replay_in:
@@ -234,3 +286,5 @@ def run(ctx):
         for i, c in enumerate(cases):
             if c in ("dec ee6b28000000", "dec ffffffffffff") and i < len(a):
                 ctx.sample({"case": c, "impl": a[i], "text": cstr(a[i])[0].decode("latin-1")})
+    if not ctx.replay_in:
+        site_probe(ctx)
